@@ -6,6 +6,11 @@
 pub fn dispatch(kind: &str, a: &[&str]) -> Option<String> {
     match (kind, a) {
         ("de.model.text", [path, enc, shape, h, _aux]) => crate::fams::fam_de::dispatch("de.text", &[path, enc, shape, h]),
+        // [w_c02] the implementation side of de.model.enum is de.text with the same struct(name*:denum(..)) shape
+        ("de.model.enum", [path, enc, shape, h, _aux]) => crate::fams::fam_de::dispatch("de.text", &[path, enc, shape, h]),
+        ("de.model.kmap", [path, enc, shape, h, _aux]) | ("de.model.hints", [path, enc, shape, h, _aux]) => {
+            crate::fams::fam_de::dispatch("de.text", &[path, enc, shape, h])
+        }
         ("de.hint", _) => dispatch_hint(kind, a),
         ("de.hint.model", _) => dispatch_hint_model(kind, a),
         _ => None,
